@@ -4320,7 +4320,10 @@ bool VariableMap::leaveScope()
     if (mScopeInfo.empty())
         return false;
 
-    for (const MapType::value_type& outerVariable : mScopeInfo.top()) {
+    // undo in reverse order: if a name was added twice in this scope, the entry saved first is the outer one
+    const std::vector<MapType::value_type>& saved = mScopeInfo.top();
+    for (auto it = saved.crbegin(); it != saved.crend(); ++it) {
+        const MapType::value_type& outerVariable = *it;
         if (outerVariable.second.id != 0)
             mVariableId[outerVariable.first] = outerVariable.second;
         else
